@@ -198,7 +198,7 @@ def check(ctx):
     obs.append(o)
     g = ctx.graph(M, 'try_working_requests')
     fn = P.method(M, 'try_working_requests')[1]
-    problems, head = dv.scan_shape(g, '_request_queue')
+    problems, head = dv.scan_shape(g, '_request_queue', snapshot=True)
     o.count(max(1, len(problems)))
     for node, msg in problems:
         o.fail(P, 'Maintainer.try_working_requests', node.ast if node is not None and node.ast is not None else 'while i < len(self._request_queue)', msg,
